@@ -1,2 +1,89 @@
-(* C16.  Theorems are added here as they are proved. *)
-From PJ.Model Require Import Base.
+(* C16 -- spec-violating streams are rejected, never turned into fabricated data.
+   One theorem per catalogued class; each holds in EVERY decoder state and position. *)
+From PJ.Model Require Import Base Lookup Terms Encoder Streams Decoder.
+From PJ.Proofs Require Import DecoderProofs.
+
+Theorem C16_entry_id_beyond_table :
+  forall id v (d : @ldec str),
+    (if id =? 0 then d_last_assigned d + 1 else id) > nlen (d_data d) -> assign id v d = Err IndexErr.
+Proof. exact reject_entry_out_of_range. Qed.
+Print Assumptions C16_entry_id_beyond_table.
+
+Theorem C16_reference_beyond_table :
+  forall i (d : @ldec str), i > nlen (d_data d) -> at_ i d = None.
+Proof. exact reject_ref_out_of_range. Qed.
+Print Assumptions C16_reference_beyond_table.
+
+Theorem C16_reference_to_unfilled_slot :
+  forall i (d : @ldec str), nth_error (d_data d) (N.to_nat (i - 1)) = Some None -> at_ i d = None.
+Proof. exact reject_ref_unfilled. Qed.
+Print Assumptions C16_reference_to_unfilled_slot.
+
+Theorem C16_datatype_zero : forall lex st, exists e, decode_literal lex (LkDt 0) st = Err e.
+Proof. exact reject_datatype_zero. Qed.
+Print Assumptions C16_datatype_zero.
+
+Theorem C16_datatype_with_disabled_table :
+  forall lex id st, d_data (ds_datatypes st) = [] -> exists e, decode_literal lex (LkDt id) st = Err e.
+Proof. exact reject_datatype_disabled. Qed.
+Print Assumptions C16_datatype_with_disabled_table.
+
+Theorem C16_repeated_term_without_previous :
+  forall ig po st, ds_s st = None -> forall p o ak, exists e, decode_row ig ak po (RTriple None p o) st = Err e.
+Proof. exact reject_repeated_without_previous. Qed.
+Print Assumptions C16_repeated_term_without_previous.
+
+Theorem C16_repeated_term_in_quoted_triple :
+  forall ig a b c st, a = None \/ b = None \/ c = None -> exists e, decode_term ig (WTriple a b c) st = Err e.
+Proof. exact reject_repeated_in_quoted. Qed.
+Print Assumptions C16_repeated_term_in_quoted_triple.
+
+Theorem C16_missing_options_row :
+  forall (f : frame) (delimited : bool) (r : row) (rest : list row),
+    f_rows f = r :: rest -> (forall o, r <> ROptions o) -> exists e, options_from_frame f delimited = Err e.
+Proof. exact reject_missing_options. Qed.
+Print Assumptions C16_missing_options_row.
+
+Theorem C16_row_kind_quad_in_triples :
+  forall ig po s p o g st, exists e, decode_row ig ATriples po (RQuad s p o g) st = Err e.
+Proof. exact reject_quad_in_triples. Qed.
+Print Assumptions C16_row_kind_quad_in_triples.
+
+Theorem C16_row_kind_quad_in_graphs :
+  forall ig po s p o g st, exists e, decode_row ig AGraphs po (RQuad s p o g) st = Err e.
+Proof. exact reject_quad_in_graphs. Qed.
+Print Assumptions C16_row_kind_quad_in_graphs.
+
+Theorem C16_row_kind_triple_in_quads :
+  forall ig po s p o st, exists e, decode_row ig AQuads po (RTriple s p o) st = Err e.
+Proof. exact reject_triple_in_quads. Qed.
+Print Assumptions C16_row_kind_triple_in_quads.
+
+Theorem C16_row_kind_graph_rows_outside_graphs :
+  forall ig po ak g st, ak <> AGraphs ->
+    (exists e, decode_row ig ak po (RGraphStart g) st = Err e) /\ (exists e, decode_row ig ak po RGraphEnd st = Err e).
+Proof. exact reject_graph_rows_outside_graphs. Qed.
+Print Assumptions C16_row_kind_graph_rows_outside_graphs.
+
+Theorem C16_triple_outside_graph :
+  forall ig po s p o st, ds_graph st = None -> exists e, decode_row ig AGraphs po (RTriple s p o) st = Err e.
+Proof. exact reject_triple_outside_graph. Qed.
+Print Assumptions C16_triple_outside_graph.
+
+Theorem C16_unsupported_version :
+  forall (po : poptions) (o : woptions), po_version po <= 2 -> 2 < o_version o -> validate_stream_options po o = false.
+Proof. exact reject_newer_version. Qed.
+Print Assumptions C16_unsupported_version.
+
+Theorem C16_unsupported_stream_type :
+  forall phys : N, phys = 0 \/ 3 < phys -> exists e, route phys = Err e.
+Proof. exact reject_unsupported_type. Qed.
+Print Assumptions C16_unsupported_stream_type.
+
+(* nothing is yielded for the offending row or after it *)
+Theorem C16_nothing_after_the_error :
+  forall (ig : integ) (ak : adapter_kind) (po : poptions) (fs1 fs2 : list frame) (st : dstate),
+    exists tail, decode_frames ig ak po (fs1 ++ fs2) st = decode_frames ig ak po fs1 st ++ tail /\
+                 (last_err (decode_frames ig ak po fs1 st) <> None -> tail = []).
+Proof. exact frames_prefix. Qed.
+Print Assumptions C16_nothing_after_the_error.
